@@ -397,9 +397,14 @@ func (e *expoHistogram[N]) delta(dest *metricdata.Aggregation) int {
 		)
 		copy(hDPts[i].NegativeBucket.Counts, val.negBuckets.counts)
 
+		// The data points may be reused memory of another stream's previous
+		// collection: reset what this stream does not collect.
+		hDPts[i].Sum = 0
 		if !e.noSum {
 			hDPts[i].Sum = val.sum
 		}
+		hDPts[i].Min = metricdata.Extrema[N]{}
+		hDPts[i].Max = metricdata.Extrema[N]{}
 		if !e.noMinMax {
 			hDPts[i].Min = metricdata.NewExtrema(val.min)
 			hDPts[i].Max = metricdata.NewExtrema(val.max)
@@ -458,9 +463,14 @@ func (e *expoHistogram[N]) cumulative(dest *metricdata.Aggregation) int {
 		)
 		copy(hDPts[i].NegativeBucket.Counts, val.negBuckets.counts)
 
+		// The data points may be reused memory of another stream's previous
+		// collection: reset what this stream does not collect.
+		hDPts[i].Sum = 0
 		if !e.noSum {
 			hDPts[i].Sum = val.sum
 		}
+		hDPts[i].Min = metricdata.Extrema[N]{}
+		hDPts[i].Max = metricdata.Extrema[N]{}
 		if !e.noMinMax {
 			hDPts[i].Min = metricdata.NewExtrema(val.min)
 			hDPts[i].Max = metricdata.NewExtrema(val.max)
